@@ -28,7 +28,26 @@ func valid(rng *Rng, sa bool, n int) *c06Case {
 	}
 	c.Stores = schemeStores(rng, sa, nil)
 	c.Tok = tokDesc{Kind: "none", Msg: "sig", PKI: "a"}
+	c.Anchor = rng.Intn(3) // which certificate of the chain the scheme's store holds: no verdict here may depend on it
 	return c
+}
+
+// storesAt puts the scheme's own store at position pos among the tsa entries.
+func storesAt(sa bool, tsa []string, pos int) []string {
+	own := "ca:s"
+	if sa {
+		own = "signingAuthority:s"
+	}
+	out := append([]string{}, tsa[:pos]...)
+	out = append(out, own)
+	return append(out, tsa[pos:]...)
+}
+
+// insertAt returns xs with x inserted at position pos.
+func insertAt(xs []string, x string, pos int) []string {
+	out := append([]string{}, xs[:pos]...)
+	out = append(out, x)
+	return append(out, xs[pos:]...)
 }
 
 // schemeStores builds the trustStores list: the store that makes the signing
@@ -72,7 +91,7 @@ func withTSA(rng *Rng, c *c06Case, pki string, stores ...string) {
 	c.Tok = tokDesc{Kind: "ok", Msg: "sig", PKI: pki, GenH: -20, Acc: 1}
 }
 
-func generate(a *Args, rng *Rng, run func(*c06Case)) {
+func generate(a *Args, rng *Rng, run func(*c06Case), runSeq func([]*c06Case)) {
 	thorough := a.Tier == "thorough"
 	reps := 1
 	if thorough {
@@ -380,6 +399,140 @@ func generate(a *Args, rng *Rng, run func(*c06Case)) {
 		}
 	}
 
+	for rep := 0; rep < reps; rep++ {
+		// ---- 7. nested windows, independent per chain position, for each of the three clocks.
+		// Certificate at depth d has the window [C-(10+5d), C+(10+5d)] hours; depth grows from the leaf
+		// (usual PKI: the leaf is innermost) or from the root (a root / intermediate issued later and
+		// expiring earlier than the leaf). The clock is placed inside all windows, in the gap where exactly
+		// the innermost certificate is expired / not yet valid, in the next gap, and outside all of them.
+		for _, n := range []int{2, 3, 4} {
+			for _, rootInner := range []bool{false, true} {
+				for _, clock := range []string{"now", "sa", "tsa"} {
+					outer := 10 + 5*(n-1)
+					for _, delta := range []int{0, 12, -12, 17, -17, outer + 3, -(outer + 3)} {
+						if n == 2 && (delta == 17 || delta == -17) {
+							continue
+						}
+						if !thorough && (delta == 17 || delta == -17) && rng.Chance(1, 2) {
+							continue
+						}
+						var center int // hours from now of the common centre of the windows
+						c := valid(rng, clock == "sa", n)
+						c.Fam = "nested:" + clock
+						if rootInner {
+							c.Fam += " root innermost"
+						} else {
+							c.Fam += " leaf innermost"
+						}
+						switch clock {
+						case "now":
+							center = -delta
+							c.Opt = Pick(rng, []string{"", "always"}) // no tsa store: the option is irrelevant
+						case "sa":
+							center = -40
+							c.SigH = center + delta
+						case "tsa":
+							center = -40
+							withTSA(rng, c, Pick(rng, []string{"a", "b"}))
+							c.Opt = Pick(rng, c06Opts) // every certificate is past notAfter now: afterCertExpiry applies too
+							c.Tok.GenH = center + delta
+						}
+						for k := 0; k < n; k++ {
+							d := k
+							if rootInner {
+								d = n - 1 - k
+							}
+							c.Win[k] = [2]int{center - (10 + 5*d), center + (10 + 5*d)}
+						}
+						c.Anchor = rng.Intn(3)
+						run(c)
+					}
+				}
+			}
+		}
+
+		// ---- 7b. exactly one certificate, at each position, expired / not yet valid at the reference time of each
+		// clock, while every other certificate is valid in a window of its own
+		for _, n := range chainLens {
+			for k := 0; k < n; k++ {
+				for _, clock := range []string{"now", "sa", "tsa"} {
+					for _, kind := range []string{"expired", "not yet valid"} {
+						ref := 0 // hours from now of the reference time
+						c := valid(rng, clock == "sa", n)
+						c.Fam = "single:" + clock + " " + kind
+						switch clock {
+						case "sa":
+							ref = Pick(rng, []int{-40, 40})
+							c.SigH = ref
+						case "tsa":
+							ref = Pick(rng, []int{-40, 40})
+							withTSA(rng, c, Pick(rng, []string{"a", "b"}))
+							c.Tok.GenH = ref
+						}
+						for j := 0; j < n; j++ {
+							c.Win[j] = [2]int{ref - (7 + 3*j), ref + (9 + 2*((j+k)%n))}
+						}
+						if kind == "expired" {
+							c.Win[k] = [2]int{ref - 30, ref - 2}
+						} else {
+							c.Win[k] = [2]int{ref + 2, ref + 30}
+						}
+						run(c)
+					}
+				}
+			}
+		}
+
+		// ---- 8. the odd tsa store at every position of the trustStores list, the scheme's own store at every position
+		for _, odd := range []string{"tsa:missing", "tsa:fail", "tsa:empty", "tsa:b", "tsa:a", "tsa:T.s_A-1"} {
+			for pos := 0; pos <= 2; pos++ {
+				for own := 0; own <= 3; own++ {
+					if !thorough && own == 2 {
+						continue
+					}
+					c := valid(rng, false, 1+rng.Intn(3))
+					c.Fam = "position:" + odd
+					withTSA(rng, c, "a")
+					c.Stores = storesAt(false, insertAt([]string{"tsa:a", "tsa:ab"}, odd, pos), own)
+					run(c)
+				}
+			}
+		}
+		// a token of TSA b when its root is listed first / middle / last among roots that do not fit
+		for pos := 0; pos <= 2; pos++ {
+			c := valid(rng, false, 1+rng.Intn(3))
+			c.Fam = "position:matching root"
+			withTSA(rng, c, "b")
+			c.Stores = storesAt(false, insertAt([]string{"tsa:a", "tsa:c"}, "tsa:b", pos), rng.Intn(4))
+			run(c)
+		}
+
+		// ---- 9. empty vs absent: a zero-length countersignature header, a validator that answers nothing
+		for _, f := range c06Formats {
+			for _, opt := range c06Opts {
+				c := valid(rng, false, 1+rng.Intn(3))
+				c.Fam = "empty:zero-length token"
+				withTSA(rng, c, "a")
+				c.Format, c.Opt = f, opt
+				c.Tok.Kind = "empty"
+				if opt == "afterCertExpiry" && rng.Bool() {
+					c.Win[0] = [2]int{-100, -5}
+				}
+				run(c)
+			}
+			c := valid(rng, false, 2)
+			c.Fam = "empty:validator answers with no result"
+			withTSA(rng, c, "a")
+			c.Format = f
+			c.Tok.Rev = []int{3, 3}
+			c.Tok.RevShort = 2
+			run(c)
+		}
+
+		// ---- 10. histories: ONE verifier instance, several calls whose expected verdict changes
+		histories(rng, runSeq, thorough)
+	}
+
 	// ---- 6. random mixture
 	extra := 250
 	if thorough {
@@ -435,4 +588,96 @@ func generate(a *Args, rng *Rng, run func(*c06Case)) {
 		}
 		run(c)
 	}
+}
+
+// histories runs sequences of calls on one verifier instance (same policy,
+// trust store object and revocation validator): whatever an earlier call
+// computed (expired flag, loaded TSA roots, a verdict) must not leak into the
+// next. Every step is emitted as its own case, judged on its own input.
+func histories(rng *Rng, runSeq func([]*c06Case), thorough bool) {
+	type step func(c *c06Case)
+	seq := func(name string, sa []bool, stores []string, opt string, steps []step) {
+		for _, acts := range [][2]string{{"Log", "Log"}, {"Enforce", "Enforce"}} {
+			if !thorough && acts[0] == "Enforce" && rng.Chance(1, 2) {
+				continue
+			}
+			sess := &session{rv: &tsRev{}}
+			level := Pick(rng, c06Levels)
+			var cs []*c06Case
+			for i, st := range steps {
+				isSA := sa[i%len(sa)]
+				c := valid(rng, isSA, 1+rng.Intn(3))
+				c.Fam = "history:" + name
+				c.Hist = name + "#" + string(rune('1'+i))
+				c.Stores, c.Opt, c.Level, c.AExp, c.ATs = stores, opt, level, acts[0], acts[1]
+				c.sess = sess
+				st(c)
+				cs = append(cs, c)
+			}
+			runSeq(cs)
+		}
+	}
+	x := []bool{false}
+	okTok := func(c *c06Case, pki string) { c.Tok = tokDesc{Kind: "ok", Msg: "sig", PKI: pki, GenH: -20, Acc: 1} }
+	none := func(c *c06Case) {}
+	expLeaf := func(c *c06Case) { c.Win[0] = [2]int{-100, -5} }
+	// the 'expired' decision of afterCertExpiry
+	seq("afterCertExpiry", x, []string{"ca:s", "tsa:a"}, "afterCertExpiry", []step{
+		none, expLeaf, func(c *c06Case) { expLeaf(c); okTok(c, "a") }, none,
+		func(c *c06Case) { c.Win[len(c.Win)-1] = [2]int{-100, -5} }, func(c *c06Case) { okTok(c, "a") },
+	})
+	// the tsa roots: the store changes between calls
+	seq("tsa roots", x, []string{"tsa:dyn", "ca:s"}, "always", []step{
+		func(c *c06Case) { c.Dyn = "a"; okTok(c, "a") },
+		func(c *c06Case) { c.Dyn = "b"; okTok(c, "a") },
+		func(c *c06Case) { c.Dyn = "fail"; okTok(c, "a") },
+		func(c *c06Case) { c.Dyn = "a"; okTok(c, "a") },
+		func(c *c06Case) { c.Dyn = "empty"; okTok(c, "a") },
+		func(c *c06Case) { c.Dyn = "b"; okTok(c, "b") },
+	})
+	// the chain against now
+	seq("now", x, []string{"ca:s"}, "", []step{
+		none, expLeaf, none, func(c *c06Case) { c.Win[len(c.Win)-1] = [2]int{5, 100} }, none,
+	})
+	// expiry
+	seq("expiry", []bool{false, true}, []string{"signingAuthority:s", "ca:s"}, "", []step{
+		none, func(c *c06Case) { c.ExpH, c.SigH = ip(-3), -10 }, func(c *c06Case) { c.ExpH = ip(7) },
+		func(c *c06Case) { c.ExpH, c.SigH = ip(-1), -2 }, none,
+	})
+	// signing authority
+	seq("signing time", []bool{true}, []string{"signingAuthority:s"}, "", []step{
+		none, func(c *c06Case) { c.SigH = -30; c.Win[0] = [2]int{-20, 100} },
+		func(c *c06Case) { c.SigH = -30; c.Win[0] = [2]int{-100, -10} }, // expired now, valid then
+		func(c *c06Case) { c.SigH = -30; c.Win[len(c.Win)-1] = [2]int{-100, -40} }, none,
+	})
+	// both schemes through one verifier
+	seq("schemes", []bool{false, true}, []string{"ca:s", "tsa:a", "signingAuthority:s"}, "always", []step{
+		func(c *c06Case) { okTok(c, "a") }, none, none /* x509 without token */, func(c *c06Case) { c.SigH = -30; c.Win[0] = [2]int{-20, 100} },
+		func(c *c06Case) { okTok(c, "a"); expLeaf(c) }, func(c *c06Case) { c.SigH = -30; expLeaf(c) }, /* SA: expired now, valid at signing time */
+	})
+	// revocation verdicts of the TSA chain
+	seq("tsa revocation", x, []string{"ca:s", "tsa:a"}, "", []step{
+		func(c *c06Case) { okTok(c, "a") },
+		func(c *c06Case) { okTok(c, "a"); c.Tok.Rev = []int{3, 0} },
+		func(c *c06Case) { okTok(c, "a") },
+		func(c *c06Case) { okTok(c, "a"); c.Tok.RevErr = true },
+		func(c *c06Case) { okTok(c, "a"); c.Tok.Rev = []int{0, 2} },
+		func(c *c06Case) { okTok(c, "a") },
+	})
+	// the message the token is about: a genuine token moved to another envelope
+	seq("token replay", x, []string{"ca:s", "tsa:a"}, "always", []step{
+		func(c *c06Case) { okTok(c, "a"); c.Tok.Msg = "other" },
+		func(c *c06Case) { okTok(c, "a") },
+		func(c *c06Case) { c.Tok.Kind = "replayed" },
+		func(c *c06Case) { okTok(c, "a") },
+		func(c *c06Case) { c.Tok.Kind = "none" },
+	})
+	// the timestamp range against the windows
+	seq("timestamp range", x, []string{"ca:s", "tsa:b"}, "always", []step{
+		func(c *c06Case) { okTok(c, "b") },
+		func(c *c06Case) { okTok(c, "b"); c.Win[0] = [2]int{-10, 100} },
+		func(c *c06Case) { okTok(c, "b"); c.Win[0] = [2]int{-100, -19} }, // expired now, token inside
+		func(c *c06Case) { okTok(c, "b"); c.Win[len(c.Win)-1] = [2]int{-100, -30} },
+		func(c *c06Case) { okTok(c, "b") },
+	})
 }
